@@ -66,6 +66,7 @@ SLICERS = {
     'within': lambda t: t.add_slice({'a': [0, 1]}, slice_name='a01'),
     'fanout': lambda t: t.add_slice('a', slice_name='bucket', slice_fn=lambda a: ['all', 'low' if a < 1 else 'high']),
     'single-replace-ndarray': lambda t: t.add_slice('a', replace_mask_false_with=0),
+    'breplace+single': lambda t: t.add_slice('b', replace_mask_false_with=0).add_slice('a'),
     'single+cross+fanout': lambda t: t.add_slice('a').add_slice(('a', 'b')).add_slice(
         'a', slice_name='bucket', slice_fn=lambda a: ['all', 'low' if a < 1 else 'high']),
 }
@@ -83,6 +84,8 @@ def expected_groups(kind, rows):
         add(('a',), (a,), i)
       elif part == 'cross':
         add(('a', 'b'), (a, b), i)
+      elif part == 'breplace':
+        add(('b',), (b,), i)
       elif part == 'two':
         add(('a',), (a,), i); add(('b',), (b,), i)
       elif part == 'within':
@@ -107,13 +110,16 @@ def build_group(kind, comp, stacked):
   from ml_metrics._src.chainables import transform
   from ml_metrics._src.aggregates import rolling_stats as rs
   n = sum(comp)
+  merge = kind.endswith('@merge')        # shard 1 = first batch, shard 2 = the rest; states merged with the runner's merge_states
+  kind = kind.removesuffix('@merge')
+  replace_names = {'single-replace-ndarray': {('a',)}, 'breplace+single': {('b',)}}.get(kind, set())
 
   def build(c):
     rows = [{'x': c.real(f'x{i}'), 'a': c.int(f'a{i}', 0, 2), 'b': c.int(f'b{i}', 0, 1)} for i in range(n)]
     batches, k = [], 0
     for bsz in comp:
       part = rows[k:k + bsz]; k += bsz
-      if kind == 'single-replace-ndarray':     # numpy columns: a replace-style mask must not write into the caller's batch
+      if replace_names:     # numpy columns: a replace-style mask must not write into the caller's batch
         batches.append({key: (symx._obj([r[key] for r in part]) if symx.has_sym([r[key] for r in part]) else np.asarray([r[key] for r in part]))
                         for key in ('x', 'a', 'b')})
       else:
@@ -126,6 +132,15 @@ def build_group(kind, comp, stacked):
         t = t.add_aggregate(fn=make_sumagg(), input_keys='x', output_keys='u', disable_slicing=True)
       if with_slices:
         t = SLICERS[kind](t)
+      if merge and len(batches) >= 2:
+        states = []
+        for shard in (batches[:1], batches[1:]):
+          it = t.make().iterate(shard)
+          for _ in it:
+            pass
+          states.append(it.agg_state)
+        runner = t.make()
+        return {norm_key(key): v for key, v in runner.get_result(runner.merge_states(states)).items()}
       it = t.make().iterate(batches)
       for _ in it:
         pass
@@ -142,7 +157,7 @@ def build_group(kind, comp, stacked):
     names = ['s'] + (['m'] if stacked else [])
     for (name, val), idx in expected_groups(kind.replace('-replace-ndarray', ''), rows).items():
       for metric in names:
-        if kind == 'single-replace-ndarray':
+        if name in replace_names:
           # replace mode: rows outside the slice count as 0 - but only in batches where the slice value occurs
           bounds, k0 = [], 0
           for bsz in comp:
@@ -255,11 +270,16 @@ def run(tier):
         if q and kind == 'single+cross+fanout' and comp not in ((2, 1), (1, 1, 1)):
           continue
         jobs.append((kind, comp, stacked, tier, common.seed()))
+  # the same pipelines run as two shards whose aggregation states are merged (what a sharded / distributed run does)
+  for kind in ('single', 'cross', 'single+cross+fanout') if q else ('single', 'cross', 'two', 'within', 'fanout', 'single+cross+fanout', 'breplace+single'):
+    for comp in comps:
+      if len(comp) >= 2 and not (q and kind == 'single+cross+fanout' and comp != (1, 1, 1)):
+        jobs.append((kind + '@merge', comp, kind in ('single', 'cross'), tier, common.seed()))
   for comp in ([(2,), (1, 1)] if q else [(2,), (1, 1), (2, 1), (3,)]):
     jobs.append(('mask-filter', comp, False, tier, common.seed()))
     jobs.append(('mask-replace', comp, False, tier, common.seed()))
   jobs = [j for j in jobs if not only or only in j[0]]
-  rep.bounds(rows=3 if q else 4, batch_compositions=[list(c) for c in comps], slicer_sets=list(SLICERS) + ['mask-filter', 'mask-replace'],
+  rep.bounds(rows=3 if q else 4, batch_compositions=[list(c) for c in comps], slicer_sets=list(SLICERS) + ['mask-filter', 'mask-replace', '<kind>@merge = two shards merged with merge_states/get_result'],
              features='a in {0,1,2}, b in {0,1}', note='stacked = three aggregates (sum/count, shipped Mean, sum/count with disable_slicing)')
   rep.outside('user aggregate functions with data-dependent control flow', 'threads (C03/C13)', 'floating-point rounding', 'numpy-array batches (lists are used)')
   rep.assume('numpy facade validated in C01/C11', 'slice features are concretised by the solver wherever the code hashes them (dict keys)')
